@@ -65,9 +65,9 @@ def r1(ctx):
     rows = {0x05: ("Increment", "increment"), 0x15: ("IncrementQuiet", "increment"), 0x06: ("Decrement", "decrement"), 0x16: ("DecrementQuiet", "decrement")}
     for op, (variant, meth) in rows.items():
         somes, _t = decoded_variant(ctx, op)
-        rep.check(somes == [variant], "decode:%#04x" % op, "%#04x decodes to %s" % (op, variant), "opcode %#04x decodes to %s, the protocol says %s" % (op, somes, variant), f.one(CODEC + "::parse_request").loc())
+        rep.check(somes == [variant], "decode:%#04x" % op, "%#04x decodes to %s" % (op, variant), "opcode %#04x decodes to %s, the protocol says %s" % (op, somes, variant), safe_loc(f, CODEC + "::parse_request"))
         hm = handler_method_of(ctx, variant)
-        rep.check(hm == {meth}, "handle:%s" % variant, "%s handled by BinaryHandler::%s" % (variant, meth), "request variant %s is handled by %s, expected BinaryHandler::%s" % (variant, sorted(hm or []), meth), f.one(HANDLER + "::handle_request").loc())
+        rep.check(hm == {meth}, "handle:%s" % variant, "%s handled by BinaryHandler::%s" % (variant, meth), "request variant %s is handled by %s, expected BinaryHandler::%s" % (variant, sorted(hm or []), meth), safe_loc(f, HANDLER + "::handle_request"))
     for meth, flag in (("increment", 1), ("decrement", 0)):
         hb = f.one(HANDLER + "::" + meth)
         argn = "inc_request" if meth == "increment" else "dec_request"
@@ -341,7 +341,7 @@ def r6(ctx):
                     return isinstance(x, tuple) and x[0] == "bufread" and x[2] == off and x[3] == w
                 ok = rd(d, 0, 8) and rd(i, 8, 8) and rd(e, 16, 4) and isinstance(k, tuple) and k[0] == "bufslice" and k[2] == 20 and k[3] == F(HF, "key_length") and len({d[1], i[1], e[1], k[1]}) == 1
                 why = "delta=%s initial=%s expiration=%s key=%s" % (short(d, 60), short(i, 60), short(e, 60), short(k, 80))
-        rep.check(ok, "layout:%#04x" % op, "delta@0(8) initial@8(8) expiration@16(4) key@20", "incr/decr frame %#04x is decoded as %s" % (op, why), f.one(CODEC + "::parse_inc_dec_request").loc())
+        rep.check(ok, "layout:%#04x" % op, "delta@0(8) initial@8(8) expiration@16(4) key@20", "incr/decr frame %#04x is decoded as %s" % (op, why), safe_loc(f, CODEC + "::parse_inc_dec_request"))
     for meth, argn in (("increment", "inc_request"), ("decrement", "dec_request")):
         hb = f.one(HANDLER + "::" + meth)
         I = Interp(f, policy=lambda body, args: "opaque" if body.path.startswith(MEMC + "::") else "inline")
